@@ -89,6 +89,9 @@ func genQ(t *rapid.T, pc string, label string) []digit {
 func TestC10Direct(t *testing.T) {
 	pcs := []string{"A.l1", "A.l2", "B.l1"}
 	rapid.Check(t, func(t *rapid.T) {
+		if vstat.OverBudget() {
+			return
+		}
 		vstat.Case()
 		rand.Seed(rapid.Int64().Draw(t, "globalRandSeed"))
 		cnt := distsys.MakeRoundRobinFairnessCounter()
@@ -261,6 +264,9 @@ func withSet(bound uint, k int) tla.Value {
 
 func TestC10RunLoop(t *testing.T) {
 	rapid.Check(t, func(t *rapid.T) {
+		if vstat.OverBudget() {
+			return
+		}
 		vstat.Case()
 		rand.Seed(rapid.Int64().Draw(t, "globalRandSeed"))
 		nLabels := rapid.IntRange(1, 4).Draw(t, "labels")
